@@ -69,7 +69,7 @@ bool is_private_or_reserved_ipv4(const std::array<std::uint8_t, 4>& ip) {
     if (ip[0] == 192 && ip[1] == 0 && ip[2] == 2) return true;     // TEST-NET-1
     if (ip[0] == 198 && ip[1] == 51 && ip[2] == 100) return true;  // TEST-NET-2
     if (ip[0] == 203 && ip[1] == 0 && ip[2] == 113) return true;   // TEST-NET-3
-    if (ip[0] == 198 && ip[1] == 18) return true;                  // Benchmarking
+    if (ip[0] == 198 && (ip[1] == 18 || ip[1] == 19)) return true;  // Benchmarking (198.18.0.0/15)
     if (ip[0] >= 224) return true;                                 // Multicast/reserved
     return false;
 }
@@ -111,6 +111,17 @@ bool is_private_or_reserved_ipv6(const std::string& host) {
     if (normalized.rfind("ff", 0) == 0) {
         return true;  // Multicast
     }
+    // IPv4-mapped (::ffff:a.b.c.d) and IPv4-compatible (::a.b.c.d) forms inherit the class of the embedded address.
+    if (const auto last_colon = normalized.find_last_of(':'); last_colon != std::string::npos
+        && normalized.find('.', last_colon) != std::string::npos) {
+        const auto prefix = normalized.substr(0, last_colon + 1);
+        if (prefix == "::ffff:" || prefix == "::" || prefix == "0:0:0:0:0:ffff:" || prefix == "::ffff:0:") {
+            std::array<std::uint8_t, 4> embedded{};
+            if (!parse_ipv4(normalized.substr(last_colon + 1), embedded) || is_private_or_reserved_ipv4(embedded)) {
+                return true;
+            }
+        }
+    }
     return false;
 }
 
@@ -140,6 +151,10 @@ bool is_private_or_reserved_host(const std::string& host) {
 }
 
 }  // namespace
+
+bool is_publicly_routable_host(const std::string& host) {
+    return is_valid_host(host) && !is_private_or_reserved_host(host);
+}
 
 AdvertiseDiscoveryResult discover_control_advertise_candidates(const Config& config) {
     AdvertiseDiscoveryResult result;
